@@ -323,6 +323,16 @@ func (p *c19) RunCase(i int) *core.CaseResult {
 					continue
 				}
 				mustFail(o, t.sql, tbl, k, doc)
+				// the same with an UnReportedErrors handler installed (it is for ASYNC / SPIN calls only)
+				{
+					resetFaults(k)
+					hOnceCounter = 0
+					oh := gq.Run(p.doc(tbl), t.sql, genql.WithVars(map[string]any{}), genql.UnReportedErrors(func(error) {}))
+					r.Execs++
+					if faultCount >= k && oh.Err == nil && oh.Panic == "" {
+						r.Fail("C19|"+t.clause+"|no-error-with-handler", fmt.Sprintf("%s on %s with the failure at invocation %d and an UnReportedErrors handler installed returned successfully: %s", t.sql, gq.Render(p.doc(tbl)["t"]), k, gq.Render(oh.Rows)), map[string]any{"sql": t.sql, "fault_at": k, "doc": p.doc(tbl)})
+					}
+				}
 				if strings.Contains(t.sql, " PARALLEL ") {
 					p.schedules(r, t, tbl, k)
 				}
@@ -357,7 +367,9 @@ func (p *c19) schedules(r *core.CaseResult, t *c19t, tbl []int, k int) {
 	st := gq.ExploreQuery(cfg, bound, 200000,
 		func() (map[string]any, string, []genql.QueryOption) {
 			resetFaults(k)
-			return p.doc(tbl), t.sql, []genql.QueryOption{genql.WithVars(map[string]any{})}
+			// with a handler for unreported errors installed: a failure of a synchronous step is
+			// still reported by New / Exec, not handed to the handler instead
+			return p.doc(tbl), t.sql, []genql.QueryOption{genql.WithVars(map[string]any{}), genql.UnReportedErrors(func(error) {})}
 		},
 		func(o *gq.Out, prefix []int32) bool {
 			if faultCount < k {
@@ -434,7 +446,7 @@ func (p *c19) kinds(t *c19t) c19kind {
 
 func (p *c19) Meta() core.Meta {
 	return core.Meta{
-		Rule:        "one case per template: 73 templates with the fault point FAULT(x) / RAISE_WHEN in every clause position (WHERE connectives and operators, select list incl. star / arithmetic / CASE / function arguments / ONCE, DISTINCT, ORDER BY, LIMIT, HAVING, grouped and whole-table aggregates, CTE body / consumer / chain / double reference, derived table and consumer, select-list / IN / EXISTS subqueries incl. <- and nested queries that fail while being built (derived table, CTE, union branch inside a subquery), AWAIT-deferred evaluation in the select list of the query / a derived table / a CTE / a union branch / a nested FROM, union branches, join consumers, derived join sides (left and right operand) and join ON expressions for every join kind - for PARALLEL joins with an unmatched left key and additionally under every completion order of the per-key goroutines and every key iteration order within 1 (thorough 2) deviations -, nested FROM) and 28 templates that fail by themselves (each run three times) (type errors in every clause incl. join ON, GROUP BY / ORDER BY of non-columns, unknown functions, arity, out-of-range indices, wrong shapes, non-array FROM, non-integer LIMIT), on every table of 1..2 (thorough 3) rows over 3 archetypes; each fault template is run fault-free to count N invocations and then once per k = 1..N. Oracle: New/Exec report an error and return no rows; then 6 follow-up queries on the same document object equal their results on a pristine copy; the failed Query object itself, executed again without the fault, returns what a fresh query returns (a self-failing one fails again). non-trivial = a failure was injected and surfaced",
+		Rule:        "one case per template: 73 templates with the fault point FAULT(x) / RAISE_WHEN in every clause position (WHERE connectives and operators, select list incl. star / arithmetic / CASE / function arguments / ONCE, DISTINCT, ORDER BY, LIMIT, HAVING, grouped and whole-table aggregates, CTE body / consumer / chain / double reference, derived table and consumer, select-list / IN / EXISTS subqueries incl. <- and nested queries that fail while being built (derived table, CTE, union branch inside a subquery), AWAIT-deferred evaluation in the select list of the query / a derived table / a CTE / a union branch / a nested FROM, union branches, join consumers, derived join sides (left and right operand) and join ON expressions for every join kind - for PARALLEL joins with an unmatched left key and additionally under every completion order of the per-key goroutines and every key iteration order within 1 (thorough 2) deviations -, nested FROM) and 28 templates that fail by themselves (each run three times) (type errors in every clause incl. join ON, GROUP BY / ORDER BY of non-columns, unknown functions, arity, out-of-range indices, wrong shapes, non-array FROM, non-integer LIMIT), on every table of 1..2 (thorough 3) rows over 3 archetypes; each fault template is run fault-free to count N invocations and then once per k = 1..N, without and with an UnReportedErrors handler installed. Oracle: New/Exec report an error and return no rows; then 6 follow-up queries on the same document object equal their results on a pristine copy; the failed Query object itself, executed again without the fault, returns what a fresh query returns (a self-failing one fails again). non-trivial = a failure was injected and surfaced",
 		Assumptions: []string{"only synchronously evaluated steps are claimed (ASYNC / SPIN failures go to the UnReportedErrors handler)", "the type error of t2 strikes on the last row only, so a partial result would be visible"},
 		Bounds:      map[string]any{"templates": len(c19Templates), "tables": len(p.tables), "followups": len(c19Followups)},
 		Exhaustive:  true,
